@@ -121,6 +121,12 @@ def rename_slides(data: bytes, mode: str, seed: int = 0) -> bytes:
         new = [n + 1] + list(range(1, n - 1)) + [n] if n >= 3 else [k + 3 for k in nums]
     else:
         new = [k + r.choice([0, 0, 10, 100]) for k in nums]
+        seen_ = set()
+        for i_, v_ in enumerate(new):       # distinct numbers (1 + 10 and 11 + 0 would collide)
+            while v_ in seen_:
+                v_ += 1000
+            seen_.add(v_)
+            new[i_] = v_
         r.shuffle(new)
     # two-phase to avoid collisions
     tmp = {pn: "/ppt/slides/tmpslide%d.xml" % i for i, (_k, pn) in enumerate(slides)}
